@@ -252,7 +252,9 @@ fn gen_parameterized(rng: &mut Rng, k: usize) -> Pair {
     let formal: Vec<String> = (0..n_params)
         .map(|i| {
             if kinds[i] {
-                format!("T{i}")
+                // a type parameter named like a type of the module (it hides that type inside the template)
+                let homonym = *rng.pick(&["N", "Gov-Int", "UINT8", "OCTET-COUNT"]);
+                if rng.chance(1, 3) && !govs.contains(&homonym) { homonym.to_string() } else { format!("T{i}") }
             } else {
                 match rng.below(4) {
                     0 if by_ref[0][i] => gname(0, i),
@@ -266,7 +268,7 @@ fn gen_parameterized(rng: &mut Rng, k: usize) -> Pair {
         })
         .collect();
     // two formals must not share a name
-    let formal: Vec<String> = formal.iter().enumerate().map(|(i, f)| if formal[..i].contains(f) { format!("n{i}") } else { f.clone() }).collect();
+    let formal: Vec<String> = formal.iter().enumerate().map(|(i, f)| if formal[..i].contains(f) { if kinds[i] { format!("T{i}") } else { format!("n{i}") } } else { f.clone() }).collect();
     let params: Vec<String> = kinds.iter().enumerate().map(|(i, t)| if *t { formal[i].clone() } else { format!("{} : {}", govs[i], formal[i]) }).collect();
     let mut members: Vec<String> = Vec::new();
     for (i, t) in kinds.iter().enumerate() {
